@@ -14,7 +14,7 @@ from streamflow.data.manager import DefaultDataManager
 from sfv.framework import Ctx, Property
 from sfv.rt.hexs import hx
 from sfv.rt.loop import run_controlled
-from sfv.translate import srcloc
+from sfv.translate import innerpath, srcloc
 
 DRIVER = "Drivers/C21.lean"
 
@@ -287,7 +287,7 @@ class C21(Property):
     lean_targets = ["SFV.Props.C21", "SFV.Model.Proto"]
     props_files = ["SFV/Props/C21.lean"]
     drivers = [DRIVER]
-    translators = [srcloc.generate]
+    translators = [srcloc.generate, innerpath.generate]
     rule = ("random operation histories (register_path, register_relation between earlier registrations, invalidate_location on "
             "registered paths, their ancestors, the root and unknown paths) over path trees of depth 1..4 on 1..3 locations; after "
             "every operation get_data_locations is read for every (node path, location) on the real DefaultDataManager, on the Lean "
@@ -303,6 +303,8 @@ class C21(Property):
         "DataLocation states (deployment, local, data_type, available) between two resumptions is arbitrary (mirrored from the real "
         "objects in the correspondence check); asyncio: a task runs until it awaits an unset Event",
         "translator harness/sfv/translate/srcloc.py (ast shape of the three candidate loops -> SFV/Gen/SourceLoc.lean)",
+        "translator harness/sfv/translate/innerpath.py (the sort order of the mounts in get_inner_path -> SFV/Gen/InnerPath.lean); "
+        "Python's string order on mount points is modelled by Lean's String order; PurePath.is_relative_to = component-wise prefix",
         "a registration on a wrapped location (mount points, get_inner_path) enters the Lean model as its three primitive steps: register outer, register inner, relate",
     ]
     technique = ("Lean 4 model of the trie with object identities (heap) and the valid_paths cache; an inductive invariant over every "
@@ -313,7 +315,8 @@ class C21(Property):
                   "path, touches no object of another location and only clears validity (invalidate_subtree); a registration always "
                   "makes the path available (reregister_available); get_source_location, run as a task while transfers are in flight "
                   "against an arbitrary environment, only returns a location that is PRIMARY and available at return time "
-                  "(source_is_valid_primary) and returns None only if every candidate was lost (source_none_only_if_lost); model compared with the real DefaultDataManager after every "
+                  "(source_is_valid_primary) and returns None only if every candidate was lost (source_none_only_if_lost); a path of a "
+                  "wrapping location is mapped through the longest matching mount (inner_path_uses_longest_mount); model compared with the real DefaultDataManager after every "
                   "operation of random histories, the three histories that failed before the fix kept as regression guards")
     level_note = ("Lean kernel, axioms within {propext, Classical.choice, Quot.sound}; hand-written model tied to the code by the "
                   "correspondence check")
@@ -354,6 +357,7 @@ class C21(Property):
                     nontriv = True
             elif op[0] == "wreg":
                 _, l, p, li, pi = op
+                self._inner(ctx, locs[l], p, lines, expect, meta, ops, i)
                 regs += [dm.register_path(locs[l], p), None]           # one call: outer + inner registration + relation
                 ro, ri = ref.register(l, p), ref.register(li, pi)
                 ref.relate(ro, ri)
@@ -485,6 +489,22 @@ class C21(Property):
                            {"ops": ops[: i + 1], "nloc": nloc})
                 break
         ctx.case({"ops": [list(o) for o in ops[:10]], "nloc": nloc}, ("h", nloc, repr(ops)) if nontriv else None, bucket)
+
+    def _inner(self, ctx: Ctx, loc, path, lines, expect, meta, ops, i):
+        """get_inner_path on the real classes against the Lean model (and the independent `spec_inner`)"""
+        from streamflow.data.remotepath import StreamFlowPath, get_inner_path
+        for q in (path, str(Path(path).parent), "/q/zz", "/mm", "/m/b"):
+            got = get_inner_path(StreamFlowPath(q, context=_Context(), location=loc))
+            got = None if got is None else str(got)
+            mounts = ";".join(f"{pp(k)}>{pp(v)}" for k, v in loc.mounts.items())
+            lines.append(f"inner {mounts} {pp(q)}")
+            expect.append("desc=1|" + ("~" if got is None else pp(got)))
+            meta.append((ops, i, f"get_inner_path({q!r})"))
+            ctx.count("inner-path:" + ("none" if got is None else "some"))
+            if got != spec_inner(q):
+                self._fail(ctx, "registry:inner-path-not-longest-mount",
+                           f"get_inner_path({q!r}) with mounts {dict(loc.mounts)} = {got!r}, the longest matching mount gives {spec_inner(q)!r}",
+                           {"ops": ops[: i + 1], "nloc": 3})
 
     def _flight(self, ctx: Ctx, h, seed, lines, expect, meta, bucket):
         nloc, ops = h["nloc"], [tuple(o) for o in h["ops"]]
